@@ -3,6 +3,7 @@ package props
 import (
 	"bufio"
 	"fmt"
+	"net"
 	"os"
 	"runtime"
 	"strings"
@@ -513,4 +514,82 @@ func TestC15Backfill(t *testing.T) {
 	}
 	rec.ClassN("backfill-prefix-cases", int64(cases))
 	rec.Sample(true, map[string]interface{}{"orchestrator": "Backfill over two cluster handlers", "streams": len(streams), "prefix_cases": cases})
+}
+
+// TestC15TCPReset: the client's disconnect arrives as a TCP reset (abortive
+// close, or a close with the server's answer unread) instead of an orderly
+// shutdown -- at every byte offset of a few request streams.  Same oracle:
+// the backend connections opened for the client are closed, its goroutines
+// end, the next client is served.
+func TestC15TCPReset(t *testing.T) {
+	rec := evid.For("C15")
+	st := stack.Get(stack.Config{Shape: "l1l2", Lock: "nolock", L1: "std", L2: "std", TCP: true})
+	st.Reset()
+	setup := wire.NewClient(st.Dial(0), true)
+	setup.Do(wire.Cmd{Kind: wire.Set, Key: "ka", Value: []byte("prepared-a"), Flags: 1})
+	setup.Close()
+	baseL1, baseL2, baseG := c15Baseline(st, 0)
+	val := mkValue(7, 60)
+	type tstream struct {
+		name   string
+		binary bool
+		cmds   []wire.Cmd
+	}
+	streams := []tstream{
+		{"set", true, []wire.Cmd{{Kind: wire.Set, Key: "ka", Value: val, Flags: 3, Opaque: 11}}},
+		{"get-multi", true, []wire.Cmd{{Kind: wire.Get, Keys: []string{"ka", "kn", "ka"}, Opaque: 20}}},
+		{"text-set", false, []wire.Cmd{{Kind: wire.Set, Key: "ka", Value: val, Flags: 3}}},
+		{"text-get", false, []wire.Cmd{{Kind: wire.Get, Keys: []string{"ka", "kn"}}}},
+	}
+	cases := 0
+	for _, s := range streams {
+		var stream []byte
+		for _, cmd := range s.cmds {
+			stream = append(stream, encodeCmd(s.binary, cmd)...)
+		}
+		for p := 0; p <= len(stream); p++ {
+			for _, mode := range []string{"reset", "close-with-answer-unread"} {
+				if mode == "close-with-answer-unread" && p != len(stream) {
+					continue
+				}
+				a1, a2 := st.L1.Accepts(), st.L2.Accepts()
+				conn := st.Dial(0)
+				for i := 0; i < 20000 && (st.L1.Accepts() < a1+1 || st.L2.Accepts() < a2+1); i++ {
+					time.Sleep(100 * time.Microsecond)
+				}
+				if p > 0 {
+					conn.Write(stream[:p])
+				}
+				if mode == "reset" {
+					if p%2 == 1 {
+						time.Sleep(200 * time.Microsecond)
+					}
+					conn.(*net.TCPConn).SetLinger(0) // close() sends RST
+				} else {
+					time.Sleep(5 * time.Millisecond) // the answer arrives and stays unread: close() resets
+				}
+				conn.Close()
+				cases++
+				c := map[string]interface{}{"stream": s.name, "prefix": p, "mode": mode}
+				rec.Case(true, fmt.Sprintf("tcpreset|%s|%d|%s", s.name, p, mode), "tcp-reset-disconnect")
+				if held := c15Quiesce(st, baseL1, baseL2, baseG, hangBound()); held != "" {
+					rp := rec.Violation("TestC15TCPReset", c)
+					t.Fatalf("C15 over TCP, stream %s (%d bytes), client %s at byte %d: still held after the bound: %s; replay %s", s.name, len(stream), mode, p, held, rp)
+				}
+				cl := wire.NewClient(st.Dial(0), true)
+				cl.Timeout = hangBound()
+				o, err := cl.Do(wire.Cmd{Kind: wire.Get, Keys: []string{"ka"}})
+				cl.Close()
+				if err != nil || o.Class != wire.OK || len(o.Hits) != 1 {
+					rp := rec.Violation("TestC15TCPReset", c)
+					t.Fatalf("C15 over TCP, stream %s, client %s at byte %d: the next client's get is answered %v %s; replay %s", s.name, mode, p, err, o, rp)
+				}
+				if held := c15Quiesce(st, baseL1, baseL2, baseG, hangBound()); held != "" {
+					t.Fatalf("C15 over TCP: after the next client left: %s", held)
+				}
+			}
+		}
+	}
+	rec.ClassN("tcp-reset-cases", int64(cases))
+	rec.Sample(true, map[string]interface{}{"listener": "loopback TCP", "disconnect": "RST (SO_LINGER 0) at every byte offset; close with the answer unread", "cases": cases})
 }
